@@ -20,7 +20,7 @@ def corpus(d, tier):
     # accepted mutants of the repository's own sample programs and standard library
     programs += pc.token_mutants(60 if tier == "quick" else 1500, SEED + 33)
     # the pattern corpus itself, and every program with one match arm deleted
-    pats = pc.corpus_dir_programs("c03")
+    pats = pc.corpus_dir_programs("c03") + pc.corpus_dir_programs("c04")
     programs += pats
     bases = pats + pc.corpus_dir_programs("c01") + pc.generated_programs(d, 40 if tier == "quick" else 600, SEED + 43, "enums")
     programs += pc.arm_drop_mutants(d, "c03", bases, 40 if tier == "quick" else 200, SEED + 53)
